@@ -3,6 +3,7 @@ package main
 import (
 	"fmt"
 	"go/types"
+	"os"
 	"strings"
 
 	"golang.org/x/tools/go/ssa"
@@ -267,6 +268,10 @@ func (st *State) panicOb2(f *Frame, ins ssa.Instruction, name, goal, what string
 		st.assume(goal)
 		return
 	}
+	if st.uncheckedPanics() {
+		st.assume(goal)
+		return
+	}
 	st.oblige("panic", "panic:"+name, goal, what+" at "+st.pos(ins))
 	st.assume(goal)
 }
@@ -314,19 +319,30 @@ func (st *State) applyContract(f *Frame, ins ssa.Instruction, c *Contract, calle
 		st.res.Assumed[c.Pkg+"."+c.Name] = true
 	}
 	// `at <callee> assert ...` clauses of the function under proof: over its own locals, here
-	if top := st.frames[0]; f == top && top.contract != nil && len(top.contract.AtAsserts[name]) > 0 {
+	atName := name
+	if top := st.frames[0]; f == top && top.contract != nil && len(top.contract.AtAsserts[name]) == 0 && len(top.contract.AtAsserts[c.Name]) > 0 {
+		// (an interface method is called by its bare name: the clause names it Type.Method, as
+		// its contract does)
+		atName = c.Name
+	} else if callee != nil && callee.Signature.Recv() == nil && callee.Parent() == nil {
+		// (a plain function is known as pkg/path.name: the clause may give the bare name)
+		if top := st.frames[0]; f == top && top.contract != nil && len(top.contract.AtAsserts[name]) == 0 && len(top.contract.AtAsserts[callee.Name()]) > 0 {
+			atName = callee.Name()
+		}
+	}
+	if top := st.frames[0]; f == top && top.contract != nil && len(top.contract.AtAsserts[atName]) > 0 {
 		aenv := st.specEnv(f, nil, false)
 		// (arg0, arg1, ...: the values handed to the callee, the receiver first)
 		for i, av := range args {
 			aenv.vars[fmt.Sprintf("arg%d", i)] = av
 		}
-		for i, a := range top.contract.AtAsserts[name] {
-			st.oblige("pre", fmt.Sprintf("assert:at:%s@%s:%s", name, strings.TrimPrefix(ord, "call@"), clauseLabel(a, i)), st.evalBool(a.Expr, aenv, a), a.Src+"  [at the call of "+name+", "+st.pos(ins)+"]")
+		for i, a := range top.contract.AtAsserts[atName] {
+			st.oblige("pre", fmt.Sprintf("assert:at:%s@%s:%s", atName, strings.TrimPrefix(ord, "call@"), clauseLabel(a, i)), st.evalBool(a.Expr, aenv, a), a.Src+"  [at the call of "+atName+", "+st.pos(ins)+"]")
 		}
 		if top.contract.atUsed == nil {
 			top.contract.atUsed = map[string]bool{}
 		}
-		top.contract.atUsed[name] = true
+		top.contract.atUsed[atName] = true
 	}
 	env := &specEnv{st: st, vars: map[string]Value{}, heap: st.heap, old: st.heap, topOld: st.allocTop}
 	// parameter names
@@ -546,7 +562,7 @@ func (st *State) applyContract(f *Frame, ins ssa.Instruction, c *Contract, calle
 	return res
 }
 
-func (c *Contract) mayPanic() bool { return c != nil && c.MayPanic }
+func (c *Contract) mayPanic() bool { return c != nil && (c.MayPanic || c.UncheckedPanics) }
 
 // findClosureValue finds the closure value being called by ins (for captured-variable names).
 func (st *State) findClosureValue(f *Frame, ins ssa.Instruction) *Value {
@@ -586,6 +602,16 @@ func (st *State) covered(ms *modSet, addr string) string {
 		switch en.kind {
 		case "all":
 			return "true"
+		case "allbut":
+			// a direct write is covered unless it may land in an array of the excluded element
+			// type (decided from the static type of the address written)
+			elemT := en.T.Underlying().(*types.Slice).Elem()
+			if st.frameIns != nil && !mayWriteArrayOf(st.frameIns, elemT) {
+				return "true"
+			}
+			if st.frameIns == nil && st.frameT != nil && !typeWithin(st.frameT, elemT) {
+				return "true"
+			}
 		case "fieldall":
 			if strings.HasPrefix(addr, "(sub ") {
 				a := splitTop(addr[5 : len(addr)-1])
@@ -627,6 +653,8 @@ func (st *State) covered(ms *modSet, addr string) string {
 
 func (st *State) frameCheck(ins ssa.Instruction, addr string, what string) {
 	f := st.top()
+	st.frameIns, st.frameT = ins, nil
+	defer func() { st.frameIns = nil }()
 	for _, ms := range st.modsets {
 		g := st.covered(ms, addr)
 		name := "frame:" + st.eng.ordinal(f.fn, ins, "frame")
@@ -676,6 +704,39 @@ func (st *State) frameCheckEntry(ins ssa.Instruction, en modEntry, name string) 
 				c2 = "true"
 			}
 			switch {
+			case e2.kind == "allbut":
+				// everything except the arrays of one element type: an effect is covered when it
+				// cannot land in such an array (fresh arrays are covered by the allocTop alternative)
+				elemT := e2.T.Underlying().(*types.Slice).Elem()
+				switch en.kind {
+				case "allbut":
+					if types.Identical(en.T.Underlying().(*types.Slice).Elem(), elemT) {
+						alts = append(alts, c2)
+					}
+				case "elems":
+					if sl, ok := en.T.Underlying().(*types.Slice); ok && !types.Identical(sl.Elem(), elemT) {
+						alts = append(alts, c2)
+					}
+				case "fields":
+					if !typeWithin(en.T, elemT) {
+						alts = append(alts, c2)
+					}
+				case "map":
+					alts = append(alts, c2)
+				case "fieldall":
+					mine := false
+					if stt, ok := elemT.Underlying().(*types.Struct); ok {
+						for i := 0; i < stt.NumFields(); i++ {
+							fa := st.eng.fsub("(mkref 0)", elemT, i)
+							if parts := splitTop(fa[5 : len(fa)-1]); parts[1] == en.name {
+								mine = true
+							}
+						}
+					}
+					if !mine && !typeWithin(en.T, elemT) {
+						alts = append(alts, c2)
+					}
+				}
 			case e2.kind == "all" && en.kind == "ghost":
 				// ghost variables are not part of "everything": they must be named
 			case e2.kind == "all":
@@ -696,8 +757,10 @@ func (st *State) frameCheckEntry(ins ssa.Instruction, en modEntry, name string) 
 		var g string
 		switch en.kind {
 		case "cell":
+			st.frameIns, st.frameT = nil, en.T
 			g = st.covered(ms, en.ref)
-		case "all", "fieldall":
+			st.frameT = nil
+		case "all", "fieldall", "allbut":
 			g = or(alts...)
 		case "ghost":
 			g = or(alts...)
@@ -726,6 +789,9 @@ func (st *State) havocModset(ms *modSet) {
 			continue
 		}
 		switch en.kind {
+		case "allbut":
+			// (the excluded arrays keep their contents, which is not used: forgetting them too is sound)
+			st.havocAll("frame: everything but the arrays of one type")
 		case "all":
 			st.havocAll("frame: everything")
 			// (ghost variables are not part of "everything": go on to the named ones)
@@ -921,6 +987,11 @@ func (st *State) builtin(f *Frame, ins ssa.Instruction, b *ssa.Builtin, cc *ssa.
 			end := app("bvadd", doff, n.Term)
 			st.assume(fmt.Sprintf("(forall ((i (_ BitVec 64))) (! (=> (or (bvslt i %s) (bvsge i %s)) (= (select %s i) (select %s i))) :pattern ((select %s i))))", doff, end, na, dArr, na))
 			st.assume(fmt.Sprintf("(forall ((i (_ BitVec 64))) (! (=> (and (bvsle (_ bv0 64) i) (bvslt i %s)) (= (select %s (bvadd %s i)) %s)) :pattern ((select %s (bvadd %s i)))))", n.Term, na, doff, srcAt("i"), na, doff))
+			if es == SRef {
+				// the same over the absolute index (any read of the copied array triggers it): a shifting
+				// copy within one slice of pointers is read back at indices unrelated to doff syntactically
+				st.assume(fmt.Sprintf("(forall ((a (_ BitVec 64))) (! (=> (and (bvsle %s a) (bvslt a %s)) (= (select %s a) %s)) :pattern ((select %s a))))", doff, end, na, srcAt(app("bvsub", "a", doff)), na))
+			}
 		}
 		if es == BV(8) {
 			// the byte abstraction: the copied range holds the first n source bytes, byte ranges outside it stay
@@ -1044,6 +1115,76 @@ func (st *State) appendStructs(r string, s, t Value, tl string, elemT types.Type
 	}
 }
 
+// curIns: the instruction being executed (the frame's index has already moved past it).
+func (st *State) curIns() ssa.Instruction {
+	f := st.top()
+	if f.idx >= 1 && f.idx <= len(f.block.Instrs) {
+		return f.block.Instrs[f.idx-1]
+	}
+	return nil
+}
+
+// appendFrameCheck: an append that grows in place writes the backing array of s, which every
+// slice sharing that array sees: the array has to be in the frame (or allocated in this call).
+func (st *State) appendFrameCheck(s Value) {
+	ins := st.curIns()
+	if ins == nil {
+		return
+	}
+	ord := strings.TrimPrefix(st.eng.ordinal(st.top().fn, ins, "call"), "call@")
+	st.frameCheckEntry(ins, modEntry{kind: "elems", ref: app("s_ref", s.Term), T: s.T}, "frame:append@"+ord)
+}
+
+// appendStructsFork: append to a slice of structs, as Go defines it (two paths, like
+// appendInPlace): growth in place writes the new elements into the backing array of s when
+// their number is known (at most four), and forgets the heap otherwise; growth by
+// reallocation is appendStructs.
+func (st *State) appendStructsFork(res Value, r string, s, t Value, tl, nl string, elemT types.Type) Value {
+	fits := app("bvsle", nl, app("s_cap", s.Term))
+	inplace := true
+	switch st.appendMode {
+	case "fresh":
+		inplace = false
+	default:
+		if fits != "true" && fits != "false" {
+			other := st.clone()
+			other.appendMode = "fresh"
+			other.top().idx--
+			st.pendingForks = append(st.pendingForks, other)
+		} else if fits == "false" {
+			inplace = false
+		}
+	}
+	st.appendMode = ""
+	if !inplace {
+		st.assume(not(fits))
+		st.appendStructs(r, s, t, tl, elemT)
+		return res
+	}
+	st.assume(fits)
+	st.appendFrameCheck(s)
+	base, off, ln := app("s_ref", s.Term), app("s_off", s.Term), app("s_len", s.Term)
+	cnt := int64(-1)
+	for k := int64(0); k <= 4; k++ {
+		if tl == bvInt(k, 64) || strings.HasSuffix(t.Term, " "+bvInt(k, 64)+" "+bvInt(k, 64)+")") {
+			cnt = k
+		}
+	}
+	if cnt < 0 {
+		st.havocAll("append in place of an unknown number of structs")
+	} else {
+		var newVals []Value
+		for k := int64(0); k < cnt; k++ {
+			newVals = append(newVals, st.loadH(st.heap, elemAddr(app("s_ref", t.Term), app("bvadd", app("s_off", t.Term), bvInt(k, 64))), elemT))
+		}
+		at := st.define("app_at", app("bvadd", off, ln), BV(64))
+		for k, v := range newVals {
+			st.storeMem(elemAddr(base, app("bvadd", at, bvInt(int64(k), 64))), elemT, v)
+		}
+	}
+	return Value{T: res.T, S: SSlice, Term: app("mk_slice", base, off, nl, app("s_cap", s.Term))}
+}
+
 // bseqFrame: the byte ranges of the array na that lie outside [lo, hi) read as they do in old.
 func bseqFrame(na, old, lo, hi string) string {
 	max := bvInt(1<<40, 64)
@@ -1057,7 +1198,6 @@ func bseqFrame(na, old, lo, hi string) string {
 // the old elements followed by the new ones. (The in-place write is not checked against the
 // frame: it lies beyond the length of s, where the caller's contract cannot name a location.)
 func (st *State) appendInPlace(freshRes Value, r string, s, t Value, tl, nl string, es Sort) Value {
-	st.res.Assumed["in-place append: the write into the spare capacity of a slice is not checked against the frame"] = true
 	arr := st.elemsArr(st.heap, es)
 	as := ArrSort(BV(64), es)
 	base, off, ln := app("s_ref", s.Term), app("s_off", s.Term), app("s_len", s.Term)
@@ -1097,6 +1237,13 @@ func (st *State) appendInPlace(freshRes Value, r string, s, t Value, tl, nl stri
 	var res Value
 	if inplace {
 		st.assume(fits)
+		if os.Getenv("QEDVC_APPEND_FRAME") != "" {
+			// (opt-in: on the unchanged tree it asks for array-identity postconditions on every
+			// function that appends to a slice it was handed or holds in a field, see DESIGN.md 0.7)
+			st.appendFrameCheck(s)
+		} else {
+			st.res.Assumed["in-place append (slices of non-struct elements): the write into the spare capacity is not checked against the frame"] = true
+		}
 		at = st.define("app_at", app("bvadd", off, ln), BV(64))
 		resOff = off
 		res = Value{T: freshRes.T, S: SSlice, Term: app("mk_slice", base, off, nl, app("s_cap", s.Term))}
@@ -1187,10 +1334,10 @@ func (st *State) appendBuiltin(cc *ssa.CallCommon, args []Value) Value {
 	st.assume(and(app("bvsle", nl, nc), app("bvsle", nc, bvInt(1<<40, 64))))
 	res := Value{T: T, S: SSlice, Term: app("mk_slice", r, bvInt(0, 64), nl, nc)}
 	if _, isStruct := sl.Elem().Underlying().(*types.Struct); isStruct || (t.S == SStr && es != BV(8)) {
-		st.res.Assumed["append returns a fresh backing array (slices of structs: writes into spare capacity of the old one are not modelled)"] = true
 		if isStruct && t.S == SSlice && !st.eng.freshAppend {
-			st.appendStructs(r, s, t, tl, sl.Elem())
+			return st.appendStructsFork(res, r, s, t, tl, nl, sl.Elem())
 		}
+		st.res.Assumed["append returns a fresh backing array (slices of structs: writes into spare capacity of the old one are not modelled)"] = true
 		return res
 	}
 	if !st.eng.freshAppend {
